@@ -813,7 +813,18 @@ pub fn rewrite_author_line(line: &[u8], rewriter: Option<&AuthorRewriter>) -> Ve
         if rw.is_empty() {
             return line.to_vec();
         }
-        rw.rewrite(line)
+        // Only the identity ("Name <email>") is subject to the rules, never the
+        // header keyword or the timestamp/timezone that follow the closing '>'.
+        let start = line.iter().position(|&b| b == b' ').map_or(0, |p| p + 1);
+        let end = line
+            .iter()
+            .rposition(|&b| b == b'>')
+            .map_or(line.len(), |p| p + 1)
+            .max(start);
+        let mut out = line[..start].to_vec();
+        out.extend_from_slice(&rw.rewrite(&line[start..end]));
+        out.extend_from_slice(&line[end..]);
+        out
     } else {
         line.to_vec()
     }
